@@ -679,13 +679,13 @@ func (x *fx) frameFormula(name, newV, oldV string, regs []region, top string) st
 	}
 	idx := x.idxSort()
 	if len(mine) == 0 {
-		return fmt.Sprintf("(forall ((r Int)) (! (=> (< r %s) (= (select %s r) (select %s r))) :pattern ((select %s r))))", top, newV, oldV, newV)
+		return fmt.Sprintf("(forall ((q!r Int)) (! (=> (< q!r %s) (= (select %s q!r) (select %s q!r))) :pattern ((select %s q!r))))", top, newV, oldV, newV)
 	}
 	var neq []string
 	for _, r := range mine {
-		neq = append(neq, fmt.Sprintf("(not (= r %s))", r.ref))
+		neq = append(neq, fmt.Sprintf("(not (= q!r %s))", r.ref))
 	}
-	f1 := fmt.Sprintf("(forall ((r Int)) (! (=> (and (< r %s) %s) (= (select %s r) (select %s r))) :pattern ((select %s r))))", top, strings.Join(neq, " "), newV, oldV, newV)
+	f1 := fmt.Sprintf("(forall ((q!r Int)) (! (=> (and (< q!r %s) %s) (= (select %s q!r) (select %s q!r))) :pattern ((select %s q!r))))", top, strings.Join(neq, " "), newV, oldV, newV)
 	var rows []string
 	done := map[string]bool{}
 	for _, r := range mine {
@@ -695,13 +695,13 @@ func (x *fx) frameFormula(name, newV, oldV string, regs []region, top string) st
 		done[r.ref] = true
 		var outs []string
 		for _, q := range mine {
-			in := x.and(x.ile(q.lo, "i"), x.ilt("i", q.hi))
+			in := x.and(x.ile(q.lo, "q!i"), x.ilt("q!i", q.hi))
 			if q.ref != r.ref {
 				in = x.and("(= "+q.ref+" "+r.ref+")", in)
 			}
 			outs = append(outs, not(in))
 		}
-		rows = append(rows, fmt.Sprintf("(forall ((i %s)) (! (=> %s (= (select (select %s %s) i) (select (select %s %s) i))) :pattern ((select (select %s %s) i))))",
+		rows = append(rows, fmt.Sprintf("(forall ((q!i %s)) (! (=> %s (= (select (select %s %s) q!i) (select (select %s %s) q!i))) :pattern ((select (select %s %s) q!i))))",
 			idx, x.and(outs...), newV, r.ref, oldV, r.ref, newV, r.ref))
 	}
 	// every region names the same cell and narrows it to a nested component: the
